@@ -76,6 +76,8 @@ pub static SCENARIOS: &[ScenarioDef] = &[
         "C02: a thread that took Rc::snapshot of a fresh object hands the Rc to a reader, which swaps it into a link of a node that a stalled dropper has left with a stale stamp and that is reclaimed by its parent's cascade: only the link's own stamp protects the fresh object"),
     scen!("rc/long-cascade", long_cascade,
         "C02/C12: one cascade over 420 nodes during which the epoch advances three times (the cascade re-pins every 128 nodes); a reader takes node 400 through a side link, removes that link (stamping the node in the current epoch) and keeps its Snapshot while the cascade arrives"),
+    scen!("rc/destructor-reader", destructor_reader,
+        "C02: the destructor of a reclaimed object works under a guard of its own: it loads a Snapshot of the object in roots[0] and keeps using it while it flushes three times; meanwhile another thread removes that object from roots[0] and three more threads move the epoch on"),
     scen!("rc/first-downgrade", first_downgrade,
         "C03: two threads downgrade an object that never had a weak pointer (the flag-setting CAS of one loses) while a third clones and drops strong references"),
     scen!("rc/latency-vs-holder", latency_vs_holder,
@@ -1176,6 +1178,46 @@ fn long_cascade(p: &Params) -> Program {
             }),
         ],
         drain_max: 60,
+        ..base(p)
+    }
+}
+
+/// A destructor that reads under its own guard (finding #13): thread 0 drops the last reference
+/// to D and collects until D is destructed - on thread 0, inside its collection; D's destructor
+/// pins, loads X from roots[0] and uses the Snapshot before and after each of three flushes (its
+/// four uses are the only scheduling points of thread 0). Thread 1 removes X from roots[0], which
+/// defers X's destruction; threads 2-4 each make one pass. X must stay intact until the
+/// destructor's guard is gone, however the others are scheduled between its uses.
+fn destructor_reader(p: &Params) -> Program {
+    Program {
+        classes: 1 << crate::sched::CLASS_DEREF,
+        setup: Some(body(|c, w| {
+            crate::world::DTOR_WORLD.store(w as *const World as usize, std::sync::atomic::Ordering::Relaxed);
+            let g = c.pin();
+            let x = c.new_node(1);
+            c.store(&w.roots[0], x, &g);
+            c.unpin(g);
+            let d = c.new_node_with(50, None, None, None, 0b10000);
+            w.rc[0].put(d);
+            c.rounds(4);
+        })),
+        threads: vec![
+            body(|c, w| {
+                let d = w.rc[0].take();
+                c.drop_rc(d);
+                c.rounds(6);
+            }),
+            body(|c, w| {
+                let g = c.pin();
+                c.store(&w.roots[0], Rc::null(), &g);
+                c.unpin(g);
+                c.round();
+            }),
+            body(|c, _| c.round()),
+            body(|c, _| c.round()),
+            body(|c, _| c.round()),
+        ],
+        drain_max: 40,
         ..base(p)
     }
 }
